@@ -81,20 +81,16 @@ class HTTPProxyConnectionPool(ConnectionPool):
         _logger.debug('Request for proxy connection.')
 
         if connection.closed():
-            _logger.debug('Connecting to proxy.')
-            yield from connection.connect()
+            try:
+                ssl_connection = yield from self._set_up_connection(
+                    connection, host, port, use_ssl, tunnel)
+            except BaseException:
+                # The caller never gets the connection: check it back in
+                connection.close()
+                self.no_wait_release(connection)
+                raise
 
-            if tunnel:
-                yield from self._establish_tunnel(connection, (host, port))
-
-            if use_ssl:
-                ssl_connection = yield from connection.start_tls(self._ssl_context)
-                ssl_connection.proxied = True
-                ssl_connection.tunneled = True
-
-                self._connection_map[ssl_connection] = connection
-                connection.wrapped_connection = ssl_connection
-
+            if ssl_connection:
                 return ssl_connection
 
         if connection.wrapped_connection:
@@ -103,6 +99,31 @@ class HTTPProxyConnectionPool(ConnectionPool):
             return ssl_connection
         else:
             return connection
+
+    @asyncio.coroutine
+    def _set_up_connection(self, connection, host, port, use_ssl, tunnel):
+        '''Connect to the proxy and set up the tunnel and TLS as needed.
+
+        Returns:
+            The TLS connection if `use_ssl` is given, otherwise None.
+
+        Coroutine.
+        '''
+        _logger.debug('Connecting to proxy.')
+        yield from connection.connect()
+
+        if tunnel:
+            yield from self._establish_tunnel(connection, (host, port))
+
+        if use_ssl:
+            ssl_connection = yield from connection.start_tls(self._ssl_context)
+            ssl_connection.proxied = True
+            ssl_connection.tunneled = True
+
+            self._connection_map[ssl_connection] = connection
+            connection.wrapped_connection = ssl_connection
+
+            return ssl_connection
 
     @asyncio.coroutine
     def release(self, proxy_connection):
